@@ -333,34 +333,48 @@ def check_dense(ctx):
         ok = ".left" in lo_k and ".right" in hi_k and whole_entry and ".right" not in lo_k and ".left" not in hi_k
         # open/closed adjustment: +1 on the start iff the interval is open on the left,
         # +1 on the end iff it is closed on the right (decided per path from the branch facts)
-        start_open = end_closed = None
+        # decided by cases on the four values of `closed`: every value that the path's tests of `closed` admit must get
+        # exactly its own adjustment (start + 1 iff open on the left, end + 1 iff closed on the right), however the tests
+        # are spelled (membership in a list, disjunction of equalities, one inequality)
         from .common import flatten as _flatten
 
+        tests, unread = [], False
         for c, v in p.facts:
-            # a membership test of `closed` in a two-element list, or a disjunction of two equality tests of it
-            # (`closed == "neither" or closed == "right"`): the set of words tested
             parts_ = _flatten(c, "or") if c.t[0] == "or" else [c]
-            if all(q.t[0] == "opq" and "closed" in q.key for q in parts_):
-                words = set()
-                for q in parts_:
-                    words |= {w for w in ("left", "right", "both", "neither") if f"'{w}'" in q.key or f'"{w}"' in q.key or f"({w}" in q.key or f",{w}" in q.key or f" {w}" in q.key or w in q.key.replace("closed", "")}
-                if words == {"neither", "right"}:
-                    start_open = v
-                elif words == {"left", "both"}:
-                    start_open = not v
-                elif words == {"both", "right"}:
-                    end_closed = v
-                elif words == {"left", "neither"}:
-                    end_closed = not v
-        if (start_open is None or end_closed is None) and ok and ("Add(" in lo_k or "Add(" in hi_k or start_open is None and end_closed is None):
-            # how the open / closed ends are told apart was not read off the branch conditions of this path
-            ctx.undecided(rule, "store|index", s.loc(), "the adjustment of the interval ends for open / closed sides is decided by a test that is not recognised", found=f"[{lo_k[:70]} : {hi_k[:70]}] with start_open={start_open} end_closed={end_closed}")
-            first = False
-            continue
-        want_lo, want_hi = (1 if start_open else 0), (1 if end_closed else 0)
-        ok = ok and lo_k.count("Add(") == want_lo and hi_k.count("Add(") == want_hi
-        # the adjustment is by exactly one position
-        ok = ok and lo_k.count(",[1]/[1])") + lo_k.count("([1]/[1],") == want_lo and hi_k.count(",[1]/[1])") + hi_k.count("([1]/[1],") == want_hi
+            if not any("closed" in q.key for q in parts_):
+                continue
+            if not all(q.t[0] in ("opq", "not") and "closed" in q.key for q in parts_):
+                unread = True
+                continue
+            words = set()
+            for q in parts_:
+                ws = {w for w in ("left", "right", "both", "neither") if f"'{w}'" in q.key or f'"{w}"' in q.key or f"({w}" in q.key or f",{w}" in q.key or f" {w}" in q.key or w in q.key.replace("closed", "")}
+                if (q.t[0] == "not") != ("cmp!=" in q.key):
+                    ws = {"left", "right", "both", "neither"} - ws  # `closed != "left"`: every other value
+                words |= ws
+            if not words:
+                unread = True
+                continue
+            tests.append((words, v))
+        admitted = [w for w in ("left", "right", "both", "neither") if all((w in ws) == v for ws, v in tests)]
+        got_lo = lo_k.count("Add(")
+        got_hi = hi_k.count("Add(")
+        by_one = lo_k.count(",[1]/[1])") + lo_k.count("([1]/[1],") == got_lo and hi_k.count(",[1]/[1])") + hi_k.count("([1]/[1],") == got_hi
+        start_open = end_closed = None
+        if unread or not tests or not admitted:
+            if ok:
+                ctx.undecided(rule, "store|index", s.loc(), "the adjustment of the interval ends for open / closed sides is decided by a test that is not recognised", found=f"[{lo_k[:70]} : {hi_k[:70]}] under {[(sorted(ws), v) for ws, v in tests]}")
+                first = False
+                continue
+        else:
+            wrong = [w for w in admitted if (got_lo, got_hi) != ((1 if w in ("right", "neither") else 0), (1 if w in ("right", "both") else 0))]
+            start_open, end_closed = got_lo == 1, got_hi == 1
+            if wrong and ok:
+                w = wrong[0]
+                ctx.violation(rule, "store|index", s.loc(), f"intervals with closed='{w}' take this path and get start + {got_lo}, end + {got_hi}: " + ("the first row of a left-closed side is lost" if got_lo and w in ("left", "both") else "the first position of a left-open side is included" if not got_lo and w in ("right", "neither") else "the row at the right end of a right-open side is included" if got_hi and w in ("left", "neither") else "the last row of a right-closed side is lost"), found=f"[{lo_k[:70]} : {hi_k[:70]}] for closed in {admitted}", expected="start + 1 iff open on the left, end + 1 iff closed on the right")
+                first = False
+                continue
+            ok = ok and by_one
         if first or not ok:
             ctx.check(ok, rule, "store|index", s.loc(), "rows come from the anomaly's own interval (left .. right) and columns from its own icolumns", found=f"[{lo_k[:70]} : {hi_k[:70]}, {col_k[:60]}] with start_open={start_open} end_closed={end_closed}", expected="labels[left(+1 iff open on the left) : right(+1 iff closed on the right), icolumns]")
         okv = isinstance(val, Num) and nf_equal(val.nf, lv + 1) and not s.data.get("aug")
